@@ -18,7 +18,7 @@ RULE = (
     "pairs (Segment in L/H/S/PL/G/K, HalfLine in L/H/PL, Line in PL, ConvexPolygon in PL/K) built as sub-objects, "
     "partial overlaps, parallel-displaced and crossing objects. Oracle: exact H-representation membership of all "
     "defining points (plus direction conditions for unbounded candidates); the truth value of `x in S` must equal "
-    "it. non-trivial = candidate on the container's carrier or within distance 1 of its boundary; each case also draws int/float coordinates and constructor forms; distinct = "
+    "it. non-trivial = candidate on the container's carrier or within distance 1 of its boundary; each case also draws int/float coordinates and constructor forms (for Segments including one whose end point was replaced by item assignment); distinct = "
     "distinct (container, candidate)."
 )
 ASSUMPTIONS = [
